@@ -63,13 +63,15 @@ def c20_hook(state):
                 jobs.add(t.job_id)
             invalid = []
             anyjob = s.jobs[rng.randrange(len(s.jobs))].id
+            # (a component that also gets a VALID transition in this action is left out: transitions are validated one
+            #  after the other, so IDLE->SETUP followed by SETUP->WORKING on the same machine is legitimately accepted)
             for m in s.machines:
-                if rng.random() < 0.5:
+                if m.id not in comps and rng.random() < 0.5:
                     ns = list(MS)[rng.choice(MACH_INVALID[list(MS).index(m.state)])]
                     invalid.append(ComponentTransition(m.id, ns, rng.choice([anyjob, None, anyjob])))
             for t in s.transports:
                 k = list(TS).index(t.state)
-                if k in TRANS_INVALID and rng.random() < 0.5:
+                if t.id not in comps and k in TRANS_INVALID and rng.random() < 0.5:
                     ns = list(TS)[rng.choice(TRANS_INVALID[k])]
                     invalid.append(ComponentTransition(t.id, ns, rng.choice([anyjob, None])))
             if invalid:
